@@ -341,7 +341,7 @@ Calls(ls) ==
   \cup {Call("bregman_gradient_step", "-", 0, h, a, b, <<>>, g, <<0, 1>>) :
            h \in {1, 7, 3, 6}, a \in Others(ls), b \in Grads(ls), g \in Gammas}
   \cup {Call("bregman_proximal_step", "-", hf[2], hf[1], a, "-", <<>>, g, <<0, 1>>) :
-           hf \in {<<1, 3>>, <<7, 3>>, <<2, 6>>, <<7, 6>>}, a \in Others(ls), g \in Gammas}
+           hf \in {<<1, 3>>, <<7, 3>>, <<2, 6>>, <<7, 6>>, <<7, 1>>, <<7, 2>>}, a \in Others(ls), g \in Gammas}    \* <<7, 1>>, <<7, 2>>: the mirror map CONTAINS the minimised function
   \cup {Call("linear_optimization_step", "-", f, 0, a, "-", <<>>, <<1, 1>>, <<0, 1>>) : f \in {4, 8}, a \in Others(ls)}
   \cup {Call("epsilon_subgradient_step", "-", f, 0, a, "-", <<>>, g, <<0, 1>>) : f \in Generic, a \in Starts(ls), g \in Gammas}
 BogusCalls == {Call("inexact_gradient_step", "bogus", 1, 0, "L1", "-", <<>>, <<1, 1>>, <<1, 2>>),
